@@ -6,7 +6,7 @@ variable (R1.2), the default/reset typestate that implements "= replaces,
 += appends, unmentioned keeps default" (R1.3), exhaustiveness of every dispatch
 on the option type (R1.4).  NOT decided: the values read back.
 """
-from .. import sym, parsermodel as pm, failpaths as fp, report, cfg as _cfg
+from .. import lexmodel, sym, parsermodel as pm, failpaths as fp, report, cfg as _cfg
 
 EXPLANATION = (
     'Static analysis: the transition table of cfg_parse_internal is extracted from the LLVM IR by constant propagation '
@@ -301,6 +301,15 @@ def run(c, chk):
     for r, aps in list(lex.actions.items()) + [(None, a) for a in lex.eof_actions.values()]:
         for ap in aps:
             if ap.returns:
+                rv = ap.retval
+                while rv is not None and rv[0] == 'bin' and rv[1] in ('sext', 'zext', 'trunc'):
+                    rv = rv[2]
+                if r is not None and rv is not None and not sym.is_const(rv) and lexmodel._yytext_index(rv) == 0:
+                    # "return yytext[0]": the token is the first byte of whatever the rule can match
+                    for scn in lex.dfa.rule_conditions().get(r, []):
+                        for b in lex.dfa.first_bytes(scn, lambda x, r=r: x == r):
+                            rets.add(b)
+                    continue
                 rets.add(ap.retval[1] if sym.is_const(ap.retval) else sym.render(ap.retval))
     alien = sorted(str(x) for x in rets if x not in set(T.values()))
     if alien:
@@ -564,30 +573,15 @@ def type_dispatch(c, chk):
     known = {'CFGT_NONE', 'CFGT_INT', 'CFGT_FLOAT', 'CFGT_STR', 'CFGT_BOOL', 'CFGT_SEC', 'CFGT_FUNC', 'CFGT_PTR', 'CFGT_COMMENT'}
     new = sorted(set(enum) - known)
     for fname, need in sorted(VALUE_TYPES.items()):
-        fn = c.need(fname)
-        handled = set()
-        for fn_, ins in [(g_, i_) for g_ in c.deep_funcs(fn) for i_ in g_.instrs()]:
-            src = None
-            if ins.op == 'switch':
-                src = ins.ops[0]
-                vals = [v for v, _ in ins.cases]
-            elif ins.op == 'icmp' and ins.pred in ('eq', 'ne') and ins.ops[1].kind == 'int':
-                src = ins.ops[0]
-                vals = [ins.ops[1].ival]
-            else:
-                continue
-            if src.kind != 'reg':
-                continue
-            d = fn_.defs.get(src.name)
-            if d is None or d.op != 'load' or d.ops[0].kind != 'reg':
-                continue
-            g = fn_.defs.get(d.ops[0].name)
-            if g is None or g.op != 'getelementptr' or g.srcty.strip() != '%struct.cfg_opt_t' or len(g.ops) < 3 \
-                    or g.ops[2].kind != 'int' or fn_.module.field_name('%struct.cfg_opt_t', g.ops[2].ival) != 'type':
-                continue
-            for v in vals:
-                if v in byval:
-                    handled.add(byval[v])
+        fn = c.func(fname)
+        if fn is None:
+            # folded into another function: some helper must still dispatch over these types
+            cands = [g for g in c.confuse.funcs.values() if g.name in c.unknown_funcs]
+            fn = next((g for g in cands if need <= dispatched_types(c, g, byval)), None)
+            if fn is None:
+                raise report.Broken('anchor function %s() not found and no helper dispatches over %s' % (fname, sorted(need)))
+            fname = fn.name
+        handled = dispatched_types(c, fn, byval)
         miss = sorted(need - handled)
         if miss:
             chk.fail('R1.4', 'dispatch:%s:%s' % (fname, ','.join(miss)), c.where(fn), '%s() has no arm for option type(s) %s' % (fname, miss))
@@ -603,6 +597,34 @@ def type_dispatch(c, chk):
 
 
 # ---- R1.6: a context is complete before code that reads it runs ------------------------------------
+
+def dispatched_types(c, fn, byval):
+    """enumerators of cfg_type_t that fn (or a helper split off it) compares an option's type with"""
+    handled = set()
+    for fn_, ins in [(g_, i_) for g_ in c.deep_funcs(fn) for i_ in g_.instrs()]:
+        src = None
+        if ins.op == 'switch':
+            src = ins.ops[0]
+            vals = [v for v, _ in ins.cases]
+        elif ins.op == 'icmp' and ins.pred in ('eq', 'ne') and ins.ops[1].kind == 'int':
+            src = ins.ops[0]
+            vals = [ins.ops[1].ival]
+        else:
+            continue
+        if src.kind != 'reg':
+            continue
+        d = fn_.defs.get(src.name)
+        if d is None or d.op != 'load' or d.ops[0].kind != 'reg':
+            continue
+        g = fn_.defs.get(d.ops[0].name)
+        if g is None or g.op != 'getelementptr' or g.srcty.strip() != '%struct.cfg_opt_t' or len(g.ops) < 3 \
+                or g.ops[2].kind != 'int' or fn_.module.field_name('%struct.cfg_opt_t', g.ops[2].ival) != 'type':
+            continue
+        for v in vals:
+            if v in byval:
+                handled.add(byval[v])
+    return handled
+
 
 def construct_before_use(c, chk, rid, only_fields=None, define_rule=True):
     """a freshly allocated context must not have a member (re)assigned after it was handed to library code that
@@ -667,7 +689,8 @@ def deprecated_handling(c, chk, model):
             if tr.kind not in ('next', 'ret') or (tr.kind == 'ret' and tr.ret == 1):
                 continue          # a failed parse: what was read is discarded anyway
             n += 1
-            examined = any(sym.mentions(cn, lambda v: v == ('p', 'opt')) for cn, t, _ in tr.assume)
+            examined = any(sym.mentions(cn, lambda v: v == ('p', 'opt')) for cn, t, _ in tr.assume) or \
+                any(e.name == 'cfg_handle_deprecated' and ('p', 'opt') in e.args for e in tr.calls())
             kept = tr.kind == 'next' and tr.next_state == 0 and tr.next.get('opt') == ('p', 'opt')
             if not examined and not kept:
                 bad = bad or (tokname, tr)
